@@ -33,6 +33,8 @@ JudgeQ(e) ==
   IN
   /\ Report(P \o ":query_known_arg", St!Known(m, e.arg))     \* harness only queries live arguments (drift guard)
   /\ Report(P \o ":returns", e.panic = "")
+  \* more than 400 SAT calls for one query on these small frameworks: the search was not going to terminate
+  /\ ("capped" \in DOMAIN e) => Report("C18:terminates", ~e.capped)
   /\ e.panic = "" =>
        /\ Report(P \o ":status", (e.st = "yes") = ref)
        /\ ~e.cert => Report(P \o ":no_cert_unasked", ~e.has_ext)
